@@ -109,6 +109,9 @@ type Violation struct {
 	Case   interface{} `json:"case"`   // the full case, enough to replay
 	CaseID int         `json:"case_id"`
 	Sub    string      `json:"sub"`
+	// Sig: optional signature fields (function name, shape of the minimal history, ...) that an
+	// open entry of known_findings.json must match exactly ("where") to explain this hit.
+	Sig map[string]string `json:"sig,omitempty"`
 }
 
 type Summary struct {
@@ -230,7 +233,7 @@ func (o *Out) Add(caseJSON interface{}, coqTerm string, nontrivial bool, viol []
 			o.sum.Violations = append(o.sum.Violations, v)
 		}
 	}
-	if coqTerm != "" {
+	if coqTerm != "" && !NoCoq {
 		o.cur = append(o.cur, coqTerm)
 		if len(o.cur) >= o.PerShard {
 			o.flush()
@@ -276,6 +279,9 @@ func (o *Out) Close() {
 
 // ---------------------------------------------------------------- common flags
 
+// NoCoq is set by -nocoq: the failing-input search runs the monitors only.
+var NoCoq bool
+
 type Flags struct {
 	Seed   uint64
 	N      int
@@ -291,6 +297,7 @@ func ParseFlags() Flags {
 	flag.StringVar(&f.Tier, "tier", "quick", "quick|thorough")
 	flag.StringVar(&f.Out, "out", "", "output directory")
 	flag.StringVar(&f.Replay, "replay", "", "replay file: run only the recorded case and print the comparison")
+	flag.BoolVar(&NoCoq, "nocoq", false, "do not write Coq shards (failing-input search mode)")
 	flag.Parse()
 	if f.Out == "" && f.Replay == "" {
 		fmt.Fprintln(os.Stderr, "need -out or -replay")
